@@ -72,6 +72,21 @@ let show_info = function
 let show_unwrap r = match r with Ok b -> "ok " ^ hx b | Err c -> "err" ^ string_of_int (int_of_n c) | _ -> "crash"
 let depth_of p = nat_of_int (List.length p / 34 + 2)
 
+
+(* ---- value-vs-alias contract of /repo HEAD (which Go call returns its argument / writes through it) ---- *)
+let has82 p = (strip_option82 variant p <> Ok p)
+let spans code p =
+  if List.length p < 240 then [] else
+  match scan_opts code (nat_of_int (List.length p + 1)) opt_start (from p 240) [] with
+  | Ok (_, rs) -> List.map (fun (a, b) -> (int_of_nat a, int_of_nat b)) rs
+  | _ -> []
+(* one SetOption step: (result, in_place) *)
+let set_step code v4 p =
+  let r = match set_option4 variant p code v4 with Ok b -> b | _ -> p in
+  let inplace = (match spans code p with [(a, b)] -> b - a = 6 | _ -> false) in
+  (r, inplace)
+let am al im = Printf.sprintf "al=%d im=%d" (b2i al) (b2i im)
+
 let res_bytes f = function
   | Ok b -> f b
   | Err c -> "err" ^ string_of_int (int_of_n c)
@@ -105,25 +120,46 @@ let run line =
      | _ -> "crash")
   | ["o82ins"; pol; o; p] ->
     let pol = match pol with "keep" -> Keep | "drop" -> Drop | _ -> Replace in
-    res_bytes (fun b -> hx b ^ " gp=" ^ gp_codes b) (insert_option82 variant (bx p) (bx o) pol)
+    let pk = bx p in
+    let al = pk <> [] && (List.length pk < 240 || (pol = Keep && has82 pk) || (pol = Drop && not (has82 pk))) in
+    res_bytes (fun b -> hx b ^ " gp=" ^ gp_codes b ^ " " ^ am al false) (insert_option82 variant pk (bx o) pol)
   | ["o82strip"; p] ->
-    res_bytes (fun b -> hx b ^ " gp=" ^ gp_codes b) (strip_option82 variant (bx p))
+    let pk = bx p in
+    let al = pk <> [] && (List.length pk < 240 || not (has82 pk)) in
+    res_bytes (fun b -> hx b ^ " gp=" ^ gp_codes b ^ " " ^ am al false) (strip_option82 variant pk)
   | ["setu32"; c; v; p] ->
+    let pk = bx p in
+    let (_, inpl) = set_step (ni c) (put32 (ni v)) pk in
     res_bytes (fun b -> hx b ^ " gp=" ^ gp_codes b ^ " get=" ^
-                        (match get_option4 b (ni c) with Ok (Some x) -> hx x | Ok None -> "none" | _ -> "crash"))
-      (set_option_u32 variant (bx p) (ni c) (ni v))
+                        (match get_option4 b (ni c) with Ok (Some x) -> hx x | Ok None -> "none" | _ -> "crash")
+                        ^ " " ^ am inpl (inpl && b <> pk))
+      (set_option_u32 variant pk (ni c) (ni v))
   | ["setip"; c; ip; p] ->
+    let pk = bx p in
+    let (al, wr) = match to4 (ip_of ip) with
+      | None -> (pk <> [], false)
+      | Some v4 -> let (_, inpl) = set_step (ni c) v4 pk in (inpl, inpl) in
     res_bytes (fun b -> hx b ^ " gp=" ^ gp_codes b ^ " get=" ^
-                        (match get_option4 b (ni c) with Ok (Some x) -> hx x | Ok None -> "none" | _ -> "crash"))
-      (set_option_ip variant (bx p) (ni c) (ip_of ip))
+                        (match get_option4 b (ni c) with Ok (Some x) -> hx x | Ok None -> "none" | _ -> "crash")
+                        ^ " " ^ am al (wr && b <> pk))
+      (set_option_ip variant pk (ni c) (ip_of ip))
   | ["proxy"; sid; lease; p] ->
+    let pk = bx p in
+    let l = ni lease in
+    (* follow the four SetOption calls: while every call so far wrote in place the current buffer IS the input *)
+    let steps = (match to4 (ip_of sid) with None -> [] | Some v4 -> [(n_of_int 54, v4)]) @
+                [(n_of_int 51, put32 l); (n_of_int 58, put32 (N.div l (n_of_int 2))); (n_of_int 59, put32 (t2_of variant l))] in
+    let (_, is_input, inp) = List.fold_left (fun (cur, is_in, inp) (c, v4) ->
+        let (r, inpl) = set_step c v4 cur in
+        if inpl then (r, is_in, (if is_in then r else inp)) else (r, false, inp)) (pk, true, pk) steps in
     res_bytes (fun b ->
         let g c = match get_option4 b (n_of_int c) with Ok (Some x) -> hx x | Ok None -> "none" | _ -> "crash" in
-        Printf.sprintf "%s gp=%s get=%s,%s,%s,%s" (hx b) (gp_codes b) (g 54) (g 51) (g 58) (g 59))
-      (rewrite_for_proxy variant (bx p) (ip_of sid) (ni lease))
+        Printf.sprintf "%s gp=%s get=%s,%s,%s,%s %s" (hx b) (gp_codes b) (g 54) (g 51) (g 58) (g 59)
+          (am (is_input && pk <> []) (inp <> pk)))
+      (rewrite_for_proxy variant pk (ip_of sid) l)
   | ["giaddr"; ip; p] ->
     let b = set_giaddr (bx p) (ip_of ip) in
-    hx b ^ " get=" ^ (if List.length b < 28 then "nil" else hx (sub b 24 28))
+    hx b ^ " get=" ^ (if List.length b < 28 then "nil" else hx (sub b 24 28)) ^ " gal=0"
   | ["hops"; p] ->
     let b = increment_hops (bx p) in
     hx b ^ " get=" ^ (if List.length b > 3 then string_of_int (int_of_n (List.nth b 3)) else "0")
@@ -176,10 +212,31 @@ let run line =
     let (m, i) = unwrap_relay (depth_of b) b in
     Printf.sprintf "unwrap=%s ; txid=%s ; %s ; info=%s ; m6=%s" (show_unwrap (unwrap_relay_reply b)) (hxo (relay_txid b))
       (show_msg m) (show_info i) (show_msg (unwrap_relay_reply6 (depth_of b) b))
-  | ["lt6"; pref; valid; p] -> hx (rewrite_v6_lifetimes variant (bx p) (n_of_decimal pref) (n_of_decimal valid))
+  | ["lt6"; pref; valid; p] ->
+    let pk = bx p in
+    let r = rewrite_v6_lifetimes variant pk (n_of_decimal pref) (n_of_decimal valid) in
+    hx r ^ " " ^ am (pk <> []) (r <> pk)
+  | ["pseq6"; pd; pref; valid; raw; req] ->
+    (match unwrap_relay_reply (bx raw) with
+     | Ok inner ->
+       let sd = get_server_duid inner in
+       let inner = replace_server_duid inner (bx pd) in
+       let inner = rewrite_v6_lifetimes variant inner (n_of_decimal pref) (n_of_decimal valid) in
+       let rq = bx req in
+       let rq = (match sd with Some d when d <> [] -> replace_server_duid rq d | _ -> rq) in
+       let lo = Some (List.init 16 (fun i -> n_of_int (if i = 15 then 1 else 0))) in
+       let fwd = build_relay_forward rq { rp_hop = n_of_int 0; rp_link = lo; rp_peer = lo; rp_ifid = [n_of_int 105; n_of_int 102; n_of_int 48];
+                                          rp_remote = []; rp_ent = n_of_int 0; rp_sub = [] } in
+       Printf.sprintf "%s ; sd=%s ; fwd=%s ; rawmod=0" (hx inner) (hxo sd) (hx fwd)
+     | _ -> "err")
   | ["duid6"; nd; p] ->
-    let b = replace_server_duid (bx p) (bx nd) in
-    hx b ^ " get=" ^ hxo (get_server_duid b)
+    let pk = bx p in
+    let b = replace_server_duid pk (bx nd) in
+    (* ReplaceServerDUID: no Server-ID -> returns pkt; same length -> writes in place; other length -> new slice *)
+    let (al, wr) = (match get_server_duid pk with
+        | None -> (pk <> [], false)
+        | Some d -> let same = List.length d = List.length (bx nd) in (same, same)) in
+    hx b ^ " get=" ^ hxo (get_server_duid b) ^ " " ^ am al (wr && b <> pk) ^ " gal=0 nal=0"
   | _ -> "badline"
 
 let () =
